@@ -1379,7 +1379,9 @@ META = {
         "A1 integers are mathematical", "A7 await is a transparent call; an async comprehension over an async iterator collects what "
         "__anext__ yields until StopAsyncIteration",
         "A-EQ == on item/argument values is an equivalence coinciding with identity of abstract values (used by loop.changed)",
-        "the iterable's items never are the internal `missing` sentinel; a sized iterable's len() equals the number of items its iterator yields",
+        "the iterable's items never are the internal `missing` sentinel; the len() of a sized iterable that is not its own iterator equals the number of items "
+        "its iterator yields; the len() of an iterator that has one is either the number of items left or the constant total (both conventions "
+        "are modelled, obligations C07.*.length[...sized_iterator]; hunt report C07_3)",
         "loop attributes are specified inside the loop body (index0 >= 0); previtem before the first iteration is left unspecified",
     ],
     "trusted_base": ["z3 / cvc5", "pyvc symbolic executor (python ast -> VCs)",
